@@ -18,6 +18,7 @@ CHECKS = {
     "C08": {"pkg": "verifx/c08", "run": "TestC08", "harness": EXPORTS2, "level": "fault_enumeration"},
     "C11": {"pkg": "verifx/c11", "run": "TestC11", "harness": EXPORTS2, "level": "exploration"},
     "C16": {"pkg": "verifx/c16", "run": "TestC16", "harness": EXPORTS2, "level": "exploration", "thorough": {"budget_s": 2400}},
+    "C19": {"pkg": "verifx/c19", "run": "TestC19", "harness": EXPORTS2 + ["cmd"], "level": "exploration", "shards": 8, "thorough": {"budget_s": 2400, "shards": 16}},
     "C12": {"pkg": "verifx/c12", "run": "TestC12", "harness": EXPORTS, "level": "exploration"},
     "C14": {"pkg": "verifx/c14", "run": "TestC14", "harness": [], "level": "exploration"},
     "C15": {"pkg": "verifx/c15", "run": "TestC15", "harness": EXPORTS2, "level": "exploration"},
